@@ -44,7 +44,7 @@ CONFIGS = collections.OrderedDict([
 
 def run(ctx):
     t_start = time.time()
-    ok, why = ctx.proof_stage("Props.C02", ["eval_correct", "closed_answer_exact"])
+    ok, why = ctx.proof_stage("Props.C02", ["eval_correct", "closed_answer_exact", "eval_goal_fuel_sufficient"])
     phase = {"proof": round(time.time() - t_start, 1)}
     if not ok:
         ctx.violation({"kind": "proof", "broken": why}, no_input=True)
